@@ -31,6 +31,8 @@ MUT_QUERIES = [
     "mk-list-1/push-q/ident", "mk-list-2/ident/push-r", "one/flag-v2/getvar-v2", "one/ns-alt/getvar-active_namespaces",
     "one/cat-~X~/one/let-v1-inlink/getvar-v1~E/getvar-v1", "one/let-v1-outer/cat-~X~getvar-v1~E",
     "one/sub-one~Ilet~_v1~_insub~Igetvar~_v1/getvar-v1", "mk-list-2/cat-~X~push-w~E/push-e",
+    "mk-matrix-2/deepmut", "mk-matrix-2/ident", "mk-matrix-2/deepmut/deepmut-w", "mk-lod-2/deepmut/ident", "mk-lod-2/ident",
+    "mk-nested/deepmut", "mk-matrix-3/push-a/deepmut",
     "ctxmut-mlist/getvar-mlist", "one/ctxmut-mlist/getvar-mlist", "ctxmut-mdict/getvar-mdict", "one/ctxmut-mlist/ctxmut-mlist/ident",
 ]
 
